@@ -11,3 +11,4 @@ import Hifi.Props.C15
 import Hifi.Props.C16
 import Hifi.Props.C20
 import Hifi.Props.C07
+import Hifi.Props.C17
